@@ -495,7 +495,7 @@ func prec(e Expr) int {
 		if e.Op == "-" {
 			return 7
 		}
-		return 0 // '!' is always parenthesised when it is an operand (its reach is not specified)
+		return 0 // '!' is always parenthesised when it is itself an operand
 	case *Exec, *IncIf, *IsSet, *Call, *Index, *Slice, *Field:
 		return 9
 	}
@@ -573,12 +573,15 @@ func (p *Printer) Expr(e Expr) string {
 		case "-":
 			return "-" + p.sub(e.X, 9)
 		case "not":
-			return "not " + p.sub(e.X, 9)
+			// the statement puts ! / not on the level of the logical connectives, below equality: its operand
+			// reaches over arithmetic, relational and equality operators without parentheses (!a == b is !(a == b));
+			// how it combines with && || ?: and another ! is not fixed, so those operands are parenthesised
+			return "not " + p.sub(e.X, 3)
 		default:
 			if p.Words {
-				return "not " + p.sub(e.X, 9)
+				return "not " + p.sub(e.X, 3)
 			}
-			return "!" + p.sub(e.X, 9)
+			return "!" + p.sub(e.X, 3)
 		}
 	case *Bin:
 		pr := prec(e)
